@@ -248,6 +248,9 @@ impl TypedProp for C01 {
         let mut custom_change_in_input = false;
         let mut queue_overflowed = false;
         let mut states_full = false;
+        // the queue was seen full after a tick: the layout's own pushes (virtual key taps of a
+        // macro, chord replays) then evict events just like an input does
+        let mut queue_full_seen = false;
         fn customs(s: &Sim) -> Vec<(u8, u16, usize)> {
             use kanata_keyberon::layout::State;
             s.k.layout
@@ -277,6 +280,9 @@ impl TypedProp for C01 {
             let l = s.k.layout.b();
             if l.states.len() >= 64 {
                 states_full = true;
+            }
+            if l.queue.len() >= 32 {
+                queue_full_seen = true;
             }
             if l.waiting.is_some() {
                 seen[0] = true;
@@ -486,7 +492,7 @@ impl TypedProp for C01 {
                 f.sig = f.sig.replacen("stuck:", "stuck:chords-v2-more-than-16-events-in-one-tick:", 1);
             }
             v.classes.push("chords-v2-burst>16");
-        } else if custom_change_in_input || queue_overflowed {
+        } else if custom_change_in_input || queue_overflowed || queue_full_seen {
             // F6: an event pushed out of the full 32-slot queue is processed inside the input
             // call, out of order with the pending decisions, and its custom event is dropped.
             if let Some(f) = v.fail.as_mut() {
